@@ -121,6 +121,26 @@ def run(tier):
         else:
             ck.accepted()
     ck.cov["outcomes"] = outcomes
+    # ---- design level: the pipeline for arbitrary requests (PipelineFaults.tla), and its admitted outcomes replayed into the code ----------------------
+    pbad, admitted = models.pipeline_faults_model(ck, impl.lib(), [(2, "all", "TargetsAll")] + ([] if quick else [(3, "linear", "TargetsSorted")]))
+    for b in pbad:
+        ck.violation(f"design {b}", f"the design-level model of the pipeline for arbitrary requests violates {b} with the repository's tables", {"design": b})
+    if len(admitted) != 2048:
+        raise MachineryError(f"PipelineFaults outcomes for {len(admitted)} requests, expected 2048")
+    nadm = 0
+    for r in recs:
+        k = (r["n"], r["conn"], r["api"], tuple(r["given"]))
+        if k in admitted:
+            nadm += 1
+            ck.count(("admitted", k, r["fmt"]), True)
+            o = "done" if r["outcome"] == "return" else "raised"
+            if o not in admitted[k]:
+                ck.violation(f"design-outcome {r['api']} {r['given']}", f"{r['api']}({r['given']}, {r['conn']}) [{r['fmt']}] -> {r['outcome']} {r['exc']}, but the design model only admits {sorted(admitted[k])}",
+                             {"job": {k2: r[k2] for k2 in ("n", "given", "fmt", "api", "conn")}, "clauses": ["design-outcome"], "admitted": sorted(admitted[k])})
+            else:
+                ck.accepted()
+    ck.cov["design_outcomes_replayed"] = nadm
+    ck.cov["design_outcome_sets"] = {str(sorted(v)): sum(1 for x in admitted.values() if x == v) for v in ({"done"}, {"raised"}, {"done", "raised"})}
     invalid_returns = sum(1 for r in recs if r["outcome"] == "return" and r["validate"] == 0)
     ck.cov["returned_for_invalid_input"] = invalid_returns
     # malformed string lists
@@ -184,4 +204,9 @@ def replay(path):
         return 1
     v, _ = core.validate_traces("TraceCalls", [r], files=files, jvms=1)
     print("replayed:", {k: r[k] for k in r if k not in ("gates",)}, sorted(v[0][0]))
+    if "admitted" in p:
+        o = "done" if r["outcome"] == "return" else "raised"
+        print("design model admits", p["admitted"], "- the code:", o)
+        if o not in p["admitted"]:
+            return 1
     return 1 if v[0][0] & CLAUSES else 0
